@@ -3,6 +3,8 @@ import Spec.C01
 import Proofs.IntLaw
 import Proofs.LitLaw
 import Proofs.Layout
+import Proofs.LineShape
+import Proofs.Renders
 /-!
 C01 — property theorems.
 
@@ -19,7 +21,7 @@ open Cfi Cfi.Text Spec.C01
 /-- the per-kind law: the rendering is exactly `size` wide and parses back to
 the canonical form of the value -/
 def RenderLaw (f : Field) (v : Val) : Prop :=
-  ∃ r, rendersTo f v r ∧ parseText f.kind r = some (canon f v r) ∧
+  ∃ r, rendersTo f v r ∧ (parseText f.kind r).getD .none = canon f v r ∧
     -- and rendering the canonical form gives the same text (stability)
     renderText f (canon f v r) = .ok r
 
@@ -110,6 +112,22 @@ theorem readText_null (f : Field) (v : Val) (hn : v.isNull = true) (hgeo : f.sto
     rw [hb]
     cases f.kind <;> rfl
 
+/-- **Missing values obey the law** in every field kind whose blank span does not
+parse (`BlankLaw`: proved for literals and integers) -/
+theorem law_null (f : Field) (v : Val) (hn : v.isNull = true) (hgeo : f.stop = f.size + f.start)
+    (hb : BlankLaw f.kind f.size) : RenderLaw f v := by
+  refine ⟨List.replicate f.size ' ', ⟨render_null f v hn, by simp, hgeo⟩, ?_, ?_⟩
+  · rw [canon_null f v _ hn]
+    unfold BlankLaw at hb
+    rw [hb]
+    cases f.kind <;> rfl
+  · rw [canon_null f v _ hn]
+    cases hk : f.kind with
+    | lit => simp [renderText, renderRaw, renderFull, hk, Val.isNull, Except.map, ljust]
+    | int => exact render_null f .none rfl
+    | flt _ _ _ => exact render_null f .none rfl
+    | date _ => exact render_null f .none rfl
+
 /-! ### whole lines -/
 
 /-- **Line round trip**: for every positional layout of pairwise disjoint fields
@@ -189,15 +207,17 @@ theorem writeFields_congr (fs : List Field) (vs vs' : List Val) (hl : fs.length 
           simp only [Except.map, bind, Except.bind]
           exact ih vs vs' (by simpa using hl) (by simpa using hl') h.2 _
 
-/-- **Text stability**: if every field obeys its law, writing the values that
-were read back reproduces the identical text — one write/read cycle never drifts. -/
-theorem line_stable (fs : List Field) (vs : List Val) (w : List Char)
+/-- **Rendering stability**: if every field obeys its law, the values read back
+from a written line render, field by field, to the very texts they were read from. -/
+theorem renderings_stable (fs : List Field) (vs : List Val) (w : List Char)
     (hlen : fs.length = vs.length) (hdis : Cfi.Disjoint fs)
     (hlaw : ∀ fv ∈ fs.zip vs, RenderLaw fv.1 fv.2)
-    (hw : writePos fs vs = .ok w) : writePos fs (readPos fs w) = .ok w := by
+    (hw : writePos fs vs = .ok w) :
+    (fs.zip (readPos fs w)).map (fun fv => renderText fv.1 fv.2) =
+      (fs.zip vs).map (fun fv => renderText fv.1 fv.2) := by
   -- the renderings
   have hrs : ∃ rs, All2 (fun (fv : Field × Val) r => rendersTo fv.1 fv.2 r ∧
-      parseText fv.1.kind r = some (canon fv.1 fv.2 r) ∧ renderText fv.1 (canon fv.1 fv.2 r) = .ok r)
+      (parseText fv.1.kind r).getD .none = canon fv.1 fv.2 r ∧ renderText fv.1 (canon fv.1 fv.2 r) = .ok r)
       (fs.zip vs) rs := by
     clear hw hdis hlen
     generalize fs.zip vs = zs at hlaw
@@ -218,7 +238,7 @@ theorem line_stable (fs : List Field) (vs : List Val) (w : List Char)
   -- the values read back render to the same texts
   have key : ∀ (fs' : List Field) (vs' : List Val) (rs' : List (List Char)),
       All2 (fun (fv : Field × Val) r => rendersTo fv.1 fv.2 r ∧
-        parseText fv.1.kind r = some (canon fv.1 fv.2 r) ∧ renderText fv.1 (canon fv.1 fv.2 r) = .ok r)
+        (parseText fv.1.kind r).getD .none = canon fv.1 fv.2 r ∧ renderText fv.1 (canon fv.1 fv.2 r) = .ok r)
         (fs'.zip vs') rs' →
       All2 (fun (f : Field) r => f.readText w = (parseText f.kind r).getD .none) fs' rs' →
       fs'.length = vs'.length →
@@ -240,12 +260,169 @@ theorem line_stable (fs : List Field) (vs : List Val) (w : List Char)
             simp only [List.map_cons, List.zip_cons_cons, List.cons.injEq]
             refine ⟨?_, ih vs' _ hrest hrest2 (by simpa using hl)⟩
             rw [hb, ha.2.1]
-            simp only [Option.getD_some]
             rw [ha.2.2, ha.1.1]
+  exact key fs vs rs hrs hread hlen
+
+/-- **Text stability**: if every field obeys its law, writing the values that
+were read back reproduces the identical text — one write/read cycle never drifts. -/
+theorem line_stable (fs : List Field) (vs : List Val) (w : List Char)
+    (hlen : fs.length = vs.length) (hdis : Cfi.Disjoint fs)
+    (hlaw : ∀ fv ∈ fs.zip vs, RenderLaw fv.1 fv.2)
+    (hw : writePos fs vs = .ok w) : writePos fs (readPos fs w) = .ok w := by
   have hcongr : writeFields fs (readPos fs w) [] = writeFields fs vs [] :=
-    writeFields_congr fs (readPos fs w) vs (by simp [readPos]) hlen (key fs vs rs hrs hread hlen) []
+    writeFields_congr fs (readPos fs w) vs (by simp [readPos]) hlen
+      (renderings_stable fs vs w hlen hdis hlaw hw) []
   simp only [writePos, hcongr] at hw ⊢
   exact hw
+
+/-- the renderings promised by the per-field laws, as one list -/
+theorem laws_all2 (zs : List (Field × Val)) (hlaw : ∀ fv ∈ zs, RenderLaw fv.1 fv.2) :
+    ∃ rs, All2 (fun (fv : Field × Val) r => rendersTo fv.1 fv.2 r ∧
+      (parseText fv.1.kind r).getD .none = canon fv.1 fv.2 r ∧ renderText fv.1 (canon fv.1 fv.2 r) = .ok r) zs rs := by
+  induction zs with
+  | nil => exact ⟨[], .nil⟩
+  | cons z zs ih =>
+    obtain ⟨r, h1, h2, h3⟩ := hlaw z List.mem_cons_self
+    obtain ⟨rs, hrs⟩ := ih (fun fv hfv => hlaw fv (List.mem_cons_of_mem z hfv))
+    exact ⟨r :: rs, .cons ⟨h1, h2, h3⟩ hrs⟩
+
+/-- **What a written line reads back to**: field by field, the canonical form of
+the value that was written (`rs` are the renderings). -/
+theorem readPos_written (fs : List Field) (vs : List Val) (rs : List (List Char)) (w : List Char)
+    (hlen : fs.length = vs.length) (hdis : Cfi.Disjoint fs)
+    (hrs : All2 (fun (fv : Field × Val) r => rendersTo fv.1 fv.2 r ∧
+      (parseText fv.1.kind r).getD .none = canon fv.1 fv.2 r ∧ renderText fv.1 (canon fv.1 fv.2 r) = .ok r) (fs.zip vs) rs)
+    (hw : writePos fs vs = .ok w) :
+    readPos fs w = ((fs.zip vs).zip rs).map (fun (x : (Field × Val) × List Char) => canon x.1.1 x.1.2 x.2) := by
+  have hr : All2 (fun (fv : Field × Val) r => rendersTo fv.1 fv.2 r) (fs.zip vs) rs := by
+    clear hw
+    generalize fs.zip vs = zs at hrs
+    induction hrs with
+    | nil => exact .nil
+    | cons h _ ih => exact .cons h.1 ih
+  have hread := line_roundtrip fs vs rs hlen hr hdis w hw
+  clear hw hr hdis
+  unfold readPos
+  induction fs generalizing vs rs with
+  | nil => cases hread; rfl
+  | cons f fs ih =>
+    cases vs with
+    | nil => simp at hlen
+    | cons v vs =>
+      simp only [List.zip_cons_cons] at hrs
+      cases hrs with
+      | cons ha hrest =>
+        cases hread with
+        | cons hb hrest2 =>
+          simp only [List.map_cons, List.zip_cons_cons, List.cons.injEq]
+          refine ⟨?_, ih vs _ (by simpa using hlen) hrest hrest2⟩
+          rw [hb, ha.2.1]
+
+/-! ### the read-back clause alone (no stability needed): all kinds but dates -/
+
+/-- the read half of the law: the rendering is `size` wide and parses to the
+canonical form -/
+def ReadLaw (f : Field) (v : Val) : Prop :=
+  ∃ r, rendersTo f v r ∧ (parseText f.kind r).getD .none = canon f v r
+
+theorem readLaw_of_renderLaw {f : Field} {v : Val} (h : RenderLaw f v) : ReadLaw f v := by
+  obtain ⟨r, h1, h2, _⟩ := h
+  exact ⟨r, h1, h2⟩
+
+/-- **Floats**: for a float field the canonical form IS "the double nearest to the
+decimal actually emitted", i.e. the parse of the emitted span — so the read
+half of the law holds for every finite or infinite double that fits. -/
+theorem readLaw_flt (f : Field) (x : Dbl) (dec : Nat) (fmt : Char) (sep : List Char)
+    (hk : f.kind = .flt dec fmt sep) (hfit : Spec.C02.fits f (.dbl x) = true) (hn : x.isNaN = false) :
+    ReadLaw f (.dbl x) := by
+  obtain ⟨r, hr⟩ := rendersTo_of_fits f (.dbl x) hfit
+  refine ⟨r, hr, ?_⟩
+  simp only [canon, Val.isNull, hn, Bool.false_eq_true, if_false, hk, parseText]
+  cases Dbl.pyFloat (replace r sep ['.']) <;> rfl
+
+/-- **Read-back clause of C01** (`Spec.C01.holds`, second conjunct): for every
+positional layout of pairwise disjoint fields and values obeying the read half
+of the law, what is read from the written line is, field by field, the canonical
+form determined by the text in that field's own span. -/
+theorem readBack_canon (fs : List Field) (vs : List Val) (w : List Char)
+    (hlen : fs.length = vs.length) (hdis : Cfi.Disjoint fs)
+    (hlaw : ∀ fv ∈ fs.zip vs, ReadLaw fv.1 fv.2)
+    (hw : writePos fs vs = .ok w) :
+    readPos fs w = (fs.zip vs).map (fun fv => canon fv.1 fv.2 (slice w fv.1.start fv.1.stop)) := by
+  have hrs : ∃ rs, All2 (fun (fv : Field × Val) r => rendersTo fv.1 fv.2 r ∧
+      (parseText fv.1.kind r).getD .none = canon fv.1 fv.2 r) (fs.zip vs) rs := by
+    clear hw hdis hlen
+    generalize fs.zip vs = zs at hlaw
+    induction zs with
+    | nil => exact ⟨[], .nil⟩
+    | cons z zs ih =>
+      obtain ⟨r, h1, h2⟩ := hlaw z List.mem_cons_self
+      obtain ⟨rs, hrs⟩ := ih (fun fv hfv => hlaw fv (List.mem_cons_of_mem z hfv))
+      exact ⟨r :: rs, .cons ⟨h1, h2⟩ hrs⟩
+  obtain ⟨rs, hrs⟩ := hrs
+  have hr : All2 (fun (fv : Field × Val) r => rendersTo fv.1 fv.2 r) (fs.zip vs) rs := by
+    clear hw
+    generalize fs.zip vs = zs at hrs
+    induction hrs with
+    | nil => exact .nil
+    | cons h _ ih => exact .cons h.1 ih
+  have hread := line_roundtrip fs vs rs hlen hr hdis w hw
+  -- the spans of `w`
+  have hspans : All2 (fun (f : Field) r => slice w f.start f.stop = r) fs rs := by
+    simp only [writePos, Except.map] at hw
+    cases hwf : writeFields fs vs [] with
+    | error e => simp [hwf] at hw
+    | ok out =>
+      simp only [hwf] at hw
+      injection hw with hw
+      subst hw
+      have h1 := writeFields_spans fs vs rs hlen hr hdis [] out hwf
+      have h2 := (writeFields_shape fs vs rs hlen hr [] [] out hwf (fun i hi => by simp at hi)).2
+      -- every field ends inside `out`
+      have hle : ∀ f ∈ fs, f.stop ≤ out.length := by
+        rw [h2]
+        intro f hf
+        have : ∀ (gs : List Field) (m : Nat), f ∈ gs → f.stop ≤ gs.foldl (fun m f => max m f.stop) m := by
+          intro gs
+          induction gs with
+          | nil => intro _ h; simp at h
+          | cons g gs ih =>
+            intro m h
+            rcases List.mem_cons.mp h with rfl | h
+            · have : ∀ (gs : List Field) (m : Nat), m ≤ gs.foldl (fun m f => max m f.stop) m := by
+                intro gs
+                induction gs with
+                | nil => intro m; exact Nat.le_refl _
+                | cons g gs ih => intro m; exact Nat.le_trans (Nat.le_max_left _ _) (ih _)
+              exact Nat.le_trans (Nat.le_max_right _ _) (this gs _)
+            · exact ih _ h
+        exact this fs _ hf
+      clear hwf hread hrs hr hlen hdis hlaw h2
+      induction h1 with
+      | nil => exact .nil
+      | @cons f r fs' rs' e _ ih =>
+        refine .cons ?_ (ih (fun g hg => hle g (List.mem_cons_of_mem f hg)))
+        have := hle f List.mem_cons_self
+        simp only [slice, List.take_append_of_le_length this]
+        exact e
+  clear hw hr hdis hlaw
+  unfold readPos
+  induction fs generalizing vs rs with
+  | nil => rfl
+  | cons f fs ih =>
+    cases vs with
+    | nil => simp at hlen
+    | cons v vs =>
+      simp only [List.zip_cons_cons] at hrs
+      cases hrs with
+      | cons ha hrest =>
+        cases hread with
+        | cons hb hrest2 =>
+          cases hspans with
+          | cons hc hrest3 =>
+            simp only [List.map_cons, List.zip_cons_cons, List.cons.injEq]
+            refine ⟨?_, ih vs (by simpa using hlen) _ hrest hrest2 hrest3⟩
+            rw [hb, ha.2, hc]
 
 /-- non-vacuity of the laws: a concrete layout with gaps, in reversed order -/
 example :
